@@ -233,13 +233,24 @@ func c16RPC(load string, preAttach bool, bound int) *explore.Scenario {
 
 // c16RPCFam: the same workloads reporting under another property (C01/C02 over the proxy+demux topology).
 func c16RPCFam(prop, load string, preAttach bool, bound int) *explore.Scenario {
+	return c16RPCFamO(prop, load, preAttach, bound, false)
+}
+
+// noDemux: the server serves the proxy link itself - one server connection for both clients,
+// whose first calls both carry id 1. (Loads with at most one client streaming: on one connection
+// a stream is identified by its id alone.)
+func c16RPCFamO(prop, load string, preAttach bool, bound int, noDemux bool) *explore.Scenario {
 	fam := prop + "/rpc"
+	topo := "rpc-via-proxy-demux"
+	if noDemux {
+		topo = "rpc-via-proxy-one-server-connection"
+	}
 	return &explore.Scenario{
-		Name: fmt.Sprintf("%s/rpc-via-proxy-demux/%s/preattach=%v", prop, load, preAttach), Family: fam, Prop: prop, Bound: bound,
+		Name: fmt.Sprintf("%s/%s/%s/preattach=%v", prop, topo, load, preAttach), Family: fam, Prop: prop, Bound: bound,
 		Run: func() {
 			w := env.NewWorld()
 			env.MsgSize = 0
-			t := env.NewProxyTopo(w, env.ProxyOpts{Clients: 2, PreAttach: preAttach, Cap: 64})
+			t := env.NewProxyTopo(w, env.ProxyOpts{Clients: 2, PreAttach: preAttach, Cap: 64, NoDemux: noDemux})
 			vsched.Settle()
 			vsched.Explore(true)
 			var urecs, srecs []*env.Rec
